@@ -190,6 +190,20 @@ CLAIMED = {
              'acceptance is validated per configuration, not proved; quick tier covers 7 of the 180 configurations, thorough all.',
         technique='Lean 4 proof of structural preservation + reference parser run on every file of real builds of the configuration matrix',
         ref='8/C01'),
+    'C16': dict(
+        text='Lean 4 theorems on the model of Profile.AddRule and every new<Kind>FromLog: every letter of the requested mask is granted '
+             'by a letter of the generated rule (for any tables; instance on the regenerated maskToAccess: a,c,d -> w, x -> ix); owner '
+             'only if fsuid = ouid; audit exactly for AUDIT records and never deny; per class the recorded capability, network '
+             'family/type/protocol/addresses, signal and peer, ptrace peer, unix address and peer, bus/path/interface/member/name, '
+             'mount file system type are fields of the rule. The model is run against AddRule, and the Rx engine against '
+             'regResolveLogs; on the real pipeline (logs.New, ParseToProfiles, Merge, Sort, Format) every generated event must be '
+             'covered by an emitted rule, path patterns being matched by an AARE matcher over the variables apparmor_parser reads '
+             'from the built tunables; every generalised name must still match its original.',
+        note='Trusted: Lean kernel; partial: that each rewrite of the generalisation list only widens the pattern is decided by the '
+             'search with the AARE oracle (a python translation of AppArmor globbing), not by a theorem per regex; "not discarded as '
+             'duplicates" rests on C10/C11 plus the pipeline search; known findings: /att/ names, names holding AARE metacharacters.',
+        technique='Lean 4 proof (mask coverage, per-class field coverage) + differential run + AARE-oracle search on the real pipeline',
+        ref='8/C16'),
 }
 
 REASON_TODO = 'check not built yet in this round; no claim is made (see DESIGN.md section 13)'
